@@ -11,6 +11,9 @@ from fam_data import DataFamily, IsolationFamily
 from fam_timeout import TimeoutFamily
 from fam_ack import AckFamily
 from fam_gen import GenFamily
+from fam_sub import SubFamily
+from fam_retention import RetentionFamily
+from fam_restart import RestartFamily
 
 FLOW = FlowFamily()
 ACTIONS = ActionsFamily()
@@ -24,6 +27,9 @@ DATAISO = IsolationFamily()
 TIMEOUT = TimeoutFamily()
 ACK = AckFamily()
 GEN = GenFamily()
+SUB = SubFamily()
+RETENTION = RetentionFamily()
+RESTART = RestartFamily()
 
 QUIESCENT = ['cur-fifo', 'cur-chaos', 'cur-chaos-lifo', 'mt2-chaos', 'mt4-chaos', 'mt8']
 ALLSCHED = QUIESCENT + ['cur-inline', 'mt2-inline']
@@ -34,6 +40,28 @@ def part(name, family, quick, thorough, monitors=(), judge=False, props=None, **
 
 
 PROPS = {
+    'C12': {
+        'level': 'fault_enumeration',
+        'rule': 'distinct base scenarios (flow / generator / hooks / data-flow / error-catch programs with a deterministic client); for each, EVERY quiescent point of the uninterrupted run is used as eviction (memory store) or engine-restart (SQLite) point',
+        'parts': [
+            part('evict', RESTART, 220, 4000, judge=True, props=['C12'], chunk=15, store='mem'),
+            part('sqlite', RESTART, 40, 800, judge=True, props=['C12'], chunk=3, store='sqlite'),
+            part('pairs', RESTART, 40, 1500, judge=True, props=['C12'], chunk=10, store='mem', pairs=True),
+        ],
+    },
+    'C17': {
+        'level': 'exploration',
+        'rule': 'distinct (models, interleaved process script, keep_processes, store) workloads; complete row sets of all collections compared after every operation',
+        'parts': [
+            part('mix', RETENTION, 700, 20000, judge=True, props=['C17'], chunk=40),
+            part('sqlite', RETENTION, 100, 2500, judge=True, props=['C17'], chunk=15, store='sqlite'),
+        ],
+    },
+    'C15': {
+        'level': 'exploration',
+        'rule': 'distinct (chain depth, leaf ending or missing model, parallel parent activity, runtime, client mode, answer order) configurations',
+        'parts': [part('sub', SUB, 1500, 40000, judge=True, props=['C15'], chunk=80)],
+    },
     'C16': {
         'level': 'exploration',
         'rule': 'distinct generator models with a non-empty list (kind, list, inner acts, nesting), distinct hook placements with at least one hook, distinct push scripts',
